@@ -1,9 +1,11 @@
 import RxnModel.Proofs.KeySpace
+import RxnModel.Proofs.Assembly
 /-!
 # C05 — key routing agrees with state ownership for every configuration
 
 Property theorems only. Models: `Model/KeySpace.lean`, `Model/Murmur.lean` (constants and schema bytes
-come from `Generated/Facts.lean`, regenerated from /repo on every run).
+come from `Generated/Facts.lean`, regenerated from /repo on every run), `Model/Assembly.lean` (registry,
+`Assembly.Deploy`, what a source runner and an operator build from the request they are sent).
 -/
 namespace Rxn.C05
 open Rxn KeySpace
@@ -74,11 +76,6 @@ theorem rangeIndex_unique (kgc n : Nat) (hk : 0 < kgc) (hk2 : kgc ≤ 65535) (hn
   simp [KGRange.includes, Gen.kgIncludes] at hr
   exact huniq j ⟨hr.1, hr.2⟩
 
-theorem beNat_u16be (g : Nat) (hg : g < 65536) (rest : Bytes) :
-    Bytes.beNat ((Bytes.u16be g ++ rest).take 2) = g := by
-  simp [Bytes.u16be, Bytes.beNat]
-  omega
-
 /-- everything persisted for a key (state entries and timers) is owned by exactly the operator the router sends the key to -/
 theorem owns_encoded (kgc n : Nat) (hk : 0 < kgc) (hk2 : kgc ≤ 65535) (hn : 0 < n)
     (k ns d : Bytes) (t j : Nat) (r : KGRange) (hj : (ranges kgc n)[j]? = some r) :
@@ -89,11 +86,11 @@ theorem owns_encoded (kgc n : Nat) (hk : 0 < kgc) (hk2 : kgc ≤ 65535) (hn : 0 
   have h1 : Keys.ownsKey r (Keys.dbKey kgc k ns d) = r.includes (keyGroup kgc k) := by
     unfold Keys.ownsKey Keys.dbKey Keys.subjectKey
     simp only [List.append_assoc]
-    rw [beNat_u16be _ hg]
+    rw [Keys.beNat_u16be _ hg]
   have h2 : Keys.ownsKey r (Keys.timerKey kgc k t) = r.includes (keyGroup kgc k) := by
     unfold Keys.ownsKey Keys.timerKey
     simp only [List.append_assoc]
-    rw [beNat_u16be _ hg]
+    rw [Keys.beNat_u16be _ hg]
   rw [h1, h2]
   have key : r.includes (keyGroup kgc k) = true ↔ rangeIndex kgc n k = j := by
     constructor
@@ -101,16 +98,243 @@ theorem owns_encoded (kgc n : Nat) (hk : 0 < kgc) (hk2 : kgc ≤ 65535) (hn : 0 
     · intro h; subst h; rw [hr'] at hj; cases hj; exact hinc'
   exact ⟨key, key⟩
 
-/-- MurmurHash3-32 reference vectors (public smhasher vectors and the repository's own) -/
+/-! ### Non-overlap in the code's own predicate, partition of the key groups -/
+
+/-- `Overlaps` between two ranges of one layout: true exactly for a non-empty range with itself. In particular two
+different ranges never overlap, whatever the counts (also `n > kgc`, where the ranges from index `kgc` on are empty). -/
+theorem ranges_overlaps (kgc n i j : Nat) (hi : i < n) (hj : j < n) :
+    ((ranges kgc n)[i]'(by rw [ranges_length]; exact hi)).overlaps ((ranges kgc n)[j]'(by rw [ranges_length]; exact hj)) = true
+      ↔ i = j ∧ startOf kgc n i < startOf kgc n (i + 1) := by
+  have gi := ranges_get kgc n i hi
+  have gj := ranges_get kgc n j hj
+  obtain ⟨_, gi⟩ := List.getElem?_eq_some_iff.mp gi
+  obtain ⟨_, gj⟩ := List.getElem?_eq_some_iff.mp gj
+  rw [gi, gj]
+  simp only [KGRange.overlaps, Gen.kgOverlaps, Bool.and_eq_true, decide_eq_true_eq]
+  constructor
+  · intro ⟨h1, h2⟩
+    by_cases hlt : i < j
+    · have := startOf_mono kgc n (show i + 1 ≤ j by omega); omega
+    · by_cases hgt : j < i
+      · have := startOf_mono kgc n (show j + 1 ≤ i by omega); omega
+      · have : i = j := by omega
+        subst this; exact ⟨rfl, by omega⟩
+  · intro ⟨h, h1⟩; subst h; exact ⟨h1, h1⟩
+
+/-- the statement `AssignRanges` and `NeedsTable` rely on: different operators' ranges never `Overlaps` -/
+theorem ranges_disjoint (kgc n i j : Nat) (hij : i ≠ j) (hi : i < n) (hj : j < n) :
+    ((ranges kgc n)[i]'(by rw [ranges_length]; exact hi)).overlaps ((ranges kgc n)[j]'(by rw [ranges_length]; exact hj)) = false := by
+  have := ranges_overlaps kgc n i j hi hj
+  cases h : ((ranges kgc n)[i]'(by rw [ranges_length]; exact hi)).overlaps ((ranges kgc n)[j]'(by rw [ranges_length]; exact hj))
+  · rfl
+  · exact absurd (this.mp h).1 hij
+
+/-- an empty range occurs only with more operators than key groups, from index `kgc` on, and it is `[kgc, kgc)`:
+it sits at the end of the key space, never strictly inside another range (where `Overlaps` would answer true) -/
+theorem empty_range_at_end (kgc n i : Nat) (hn : 0 < n) (he : startOf kgc n (i + 1) ≤ startOf kgc n i) :
+    kgc < n ∧ kgc ≤ i ∧ startOf kgc n i = kgc ∧ startOf kgc n (i + 1) = kgc := by
+  rw [startOf_step] at he
+  have hq : kgc / n = 0 ∧ ¬ i < kgc % n := by
+    generalize kgc / n = q at he
+    split at he <;> omega
+  obtain ⟨hd, hnb⟩ := hq
+  have hm : kgc % n = kgc := by have := Nat.div_add_mod kgc n; rw [hd] at this; omega
+  have hlt : kgc < n := by have := Nat.mod_lt kgc hn; omega
+  have hik : kgc ≤ i := by omega
+  refine ⟨hlt, hik, ?_, ?_⟩ <;> simp [startOf, hd, hm] <;> omega
+
+/-- `Overlaps` means "share a key group" for non-empty ranges; for an empty range it does not (see the example below) -/
+theorem overlaps_iff_common_group (r o : KGRange) (hr : r.start < r.stop) (ho : o.start < o.stop) :
+    r.overlaps o = true ↔ ∃ g, r.includes g = true ∧ o.includes g = true := by
+  simp only [KGRange.overlaps, Gen.kgOverlaps, KGRange.includes, Gen.kgIncludes, Bool.and_eq_true, decide_eq_true_eq]
+  constructor
+  · intro ⟨h1, h2⟩
+    exact ⟨max r.start o.start, by omega⟩
+  · intro ⟨g, h⟩; omega
+
+/-- sharing a key group implies `Overlaps`, for all ranges -/
+theorem common_group_overlaps (r o : KGRange) (g : Nat) (h1 : r.includes g = true) (h2 : o.includes g = true) :
+    r.overlaps o = true := by
+  simp only [KGRange.overlaps, Gen.kgOverlaps, KGRange.includes, Gen.kgIncludes, Bool.and_eq_true, decide_eq_true_eq] at *
+  omega
+
+/-- the auditor's remark: an empty range strictly inside another one `Overlaps` it without sharing a group -/
+example : (⟨0, 4⟩ : KGRange).overlaps ⟨2, 2⟩ = true ∧ ∀ g, ¬ ((⟨2, 2⟩ : KGRange).includes g = true) := by
+  refine ⟨by decide, ?_⟩
+  intro g; simp [KGRange.includes, Gen.kgIncludes]
+
+/-- `KeyGroups()` of the ranges, in operator order, enumerate every key group exactly once: `0, 1, …, kgc-1` -/
+theorem keyGroups_partition (kgc n : Nat) (hn : 0 < n) :
+    (ranges kgc n).flatMap KGRange.keyGroups = List.range kgc := by
+  rw [ranges_closed_form, List.range_eq_range' (n := n)]
+  rw [map_keyGroups (startOf kgc n) (fun _ _ h => startOf_mono kgc n h) n 0]
+  simp [startOf_zero, startOf_n kgc n hn, List.range_eq_range']
+
+example : (ranges 2 4).flatMap KGRange.keyGroups = [0, 1] ∧ (ranges 7 3).map KGRange.keyGroups = [[0,1,2],[3,4],[5,6]] := by decide
+example : ((ranges 2 4)[1]).overlaps ((ranges 2 4)[2]) = false ∧ ((ranges 2 4)[2]).overlaps ((ranges 2 4)[3]) = false ∧
+    ((ranges 2 4)[3]).overlaps ((ranges 2 4)[3]) = false ∧ ((ranges 2 4)[1]).overlaps ((ranges 2 4)[1]) = true := by decide
+
+/-! ### The table the driver executes -/
+
+/-- the array-backed lookup table is the list table of the theorems above -/
+theorem lookupTableA_eq (kgc n : Nat) : (lookupTableA kgc n).toList = lookupTable kgc n := lookupTableA_toList kgc n
+
+theorem rangeIndexA_eq (kgc n : Nat) (key : Bytes) : rangeIndexA (lookupTableA kgc n) kgc key = rangeIndex kgc n key := by
+  unfold rangeIndexA rangeIndex
+  rw [← lookupTableA_eq]
+  simp [Array.getD_eq_getD_getElem?, List.getD_eq_getElem?_getD]
+
+/-! ### Deployment level: registry → `Assembly.Deploy` → what runners and operators build from their requests -/
+open Assembly
+
+/-- "routing agrees with ownership" for a deployment `D` of the operators `ops`, for one key `k`:
+every source runner, having handled ITS request, addresses some deployed operator `tgt`; every operator, having handled
+ITS request, owns what it persists for `k` (state entry and timer, under the group count IT was told) iff it is `tgt`. -/
+def RoutingAgrees (ops : List NodeId) (D : Deployment) (k ns d : Bytes) (t : Nat) : Prop :=
+  ∀ sr sreq, (sr, sreq) ∈ D.srReqs →
+    ∃ rst, srHandleDeploy sreq = some rst ∧
+    ∃ tgt, srRoute rst k = some tgt ∧ tgt ∈ ops ∧
+      ∀ o oreq, (o, oreq) ∈ D.opReqs →
+        ∃ st, opHandleDeploy o oreq = some st ∧
+          (st.owns (st.dbKey k ns d) = true ↔ o = tgt) ∧
+          (st.owns (st.timerKey k t) = true ↔ o = tgt)
+
+/-- `Assembly.Deploy`: every runner and every operator of the assembly is sent exactly one request, and for every
+configuration (key group count, operator list with distinct ids, runner list) and every key, routing agrees with
+ownership: the operator a runner addresses owns the key's persisted entries, and no other deployed operator does. -/
+theorem deploy_agreement (kgc wc : Nat) (ops srs : List NodeId) (D : Deployment)
+    (hD : deploy kgc wc ops srs = some D) (hne : ops ≠ []) (hnd : ops.Nodup) (k ns d : Bytes) (t : Nat) :
+    D.srReqs.map (·.1) = srs ∧ D.opReqs.map (·.1) = ops ∧ RoutingAgrees ops D k ns d t := by
+  unfold deploy at hD
+  split at hD
+  · cases hD
+  · rename_i hc
+    cases hD
+    have hk : 0 < kgc := by omega
+    have hk2 : kgc ≤ 65535 := by omega
+    have hn : 0 < ops.length := List.length_pos_iff.mpr hne
+    refine ⟨by simp [List.map_map, Function.comp_def], by simp [List.map_map, Function.comp_def], ?_⟩
+    intro sr sreq hsr
+    simp only [List.mem_map] at hsr
+    obtain ⟨_, _, hs⟩ := hsr
+    cases hs
+    have hsd : srHandleDeploy ⟨ops, kgc⟩ = some ⟨kgc, ops, lookupTableA kgc ops.length⟩ := by
+      unfold srHandleDeploy
+      rw [if_neg (by simp only []; omega)]
+    refine ⟨_, hsd, ?_⟩
+    obtain ⟨hlt, _, _⟩ := rangeIndex_unique kgc ops.length hk hk2 hn k
+    refine ⟨ops[rangeIndex kgc ops.length k], by simp [srRoute, rangeIndexA_eq, hlt], List.getElem_mem _, ?_⟩
+    intro o oreq ho
+    simp only [List.mem_map] at ho
+    obtain ⟨o', ho', hs⟩ := ho
+    cases hs
+    have hidx : List.idxOf o ops < ops.length := List.idxOf_lt_length_iff.mpr ho'
+    have hget := ranges_get kgc ops.length _ hidx
+    have hod : opHandleDeploy o ⟨ops, srs, kgc⟩ =
+        some ⟨kgc, ops.length, List.idxOf o ops, ⟨startOf kgc ops.length (List.idxOf o ops), startOf kgc ops.length (List.idxOf o ops + 1)⟩⟩ := by
+      unfold opHandleDeploy
+      simp only []
+      rw [if_neg (by omega)]
+      simp [List.getD_eq_getElem?_getD, hget]
+    refine ⟨_, hod, ?_⟩
+    have hown := owns_encoded kgc ops.length hk hk2 hn k ns d t _ _ hget
+    have hiff : rangeIndex kgc ops.length k = List.idxOf o ops ↔ o = ops[rangeIndex kgc ops.length k] := by
+      constructor
+      · intro h
+        have := List.getElem_idxOf hidx
+        simp only [h]; exact this.symm
+      · intro h
+        have := hnd.idxOf_getElem _ hlt
+        rw [← h] at this; exact this.symm
+    simp only [OpState.owns, OpState.dbKey, OpState.timerKey]
+    exact ⟨hown.1.trans hiff, hown.2.trans hiff⟩
+
+/-- the registry hands `Deploy` exactly `taskCount` distinct registered operators and runners, after any history of
+registrations and deregistrations (so the hypotheses of `deploy_agreement` hold in production) -/
+theorem registry_assembly (steps : List RegStep) (tc : Nat) (ops srs : List NodeId)
+    (h : newAssembly tc (Reg.run steps) = some (ops, srs)) :
+    ops.Nodup ∧ ops.length = tc ∧ srs.Nodup ∧ srs.length = tc ∧
+    (∀ o ∈ ops, o ∈ (Reg.run steps).ops) ∧ (∀ s ∈ srs, s ∈ (Reg.run steps).srs) := by
+  unfold newAssembly at h
+  split at h
+  · cases h
+  · rename_i hc
+    cases h
+    have hn := run_nodup steps
+    exact ⟨sorted_take_nodup _ _ hn.1, sorted_take_length _ _ (by omega), sorted_take_nodup _ _ hn.2,
+      sorted_take_length _ _ (by omega), sorted_take_subset _ _, sorted_take_subset _ _⟩
+
+/-- end to end: whatever was registered, if an assembly can be formed for a valid job configuration then `Deploy`
+succeeds and routing agrees with ownership for every key -/
+theorem registry_deploy_agreement (steps : List RegStep) (kgc tc : Nat) (hk : 0 < kgc) (hk2 : kgc ≤ 65535) (htc : 0 < tc)
+    (ops srs : List NodeId) (h : newAssembly tc (Reg.run steps) = some (ops, srs)) (k ns d : Bytes) (t : Nat) :
+    ∃ D, deploy kgc tc ops srs = some D ∧ RoutingAgrees ops D k ns d t := by
+  obtain ⟨hnd, hlen, _, _, _, _⟩ := registry_assembly steps tc ops srs h
+  have hne : ops ≠ [] := by intro h0; rw [h0] at hlen; simp at hlen; omega
+  have hD : deploy kgc tc ops srs = some ⟨srs.map fun s => (s, ⟨ops, kgc⟩), ops.map fun o => (o, ⟨ops, srs, kgc⟩)⟩ := by
+    unfold deploy
+    rw [if_neg (by omega)]
+  exact ⟨_, hD, (deploy_agreement kgc tc ops srs _ hD hne hnd k ns d t).2.2⟩
+
+/-- non-vacuity: three operators registered out of order, one runner; the deployment exists, the key "hello" (group 5 of 7)
+is addressed to operator `[3]`, which owns it, and operators `[1]`, `[2]` do not -/
+example :
+    let r := Reg.run [.regOp [3], .regSr [9], .regOp [1], .regOp [2], .regOp [1]]
+    r.ops = [[3],[1],[2]] ∧ (newAssembly 1 r).isSome = true ∧ (newAssembly 3 r).isSome = false ∧
+    (deploy 7 3 [[1],[2],[3]] [[9]]).isSome = true ∧
+    ((srHandleDeploy ⟨[[1],[2],[3]], 7⟩).bind (srRoute · [104,101,108,108,111])) = some [3] ∧
+    ((opHandleDeploy [3] ⟨[[1],[2],[3]], [[9]], 7⟩).map fun st => (st.range, st.owns (st.dbKey [104,101,108,108,111] [] []))) = some (⟨5, 7⟩, true) ∧
+    ((opHandleDeploy [2] ⟨[[1],[2],[3]], [[9]], 7⟩).map fun st => (st.range, st.owns (st.dbKey [104,101,108,108,111] [] []))) = some (⟨3, 5⟩, false) := by
+  decide
+
+/-- the distinct-ids hypothesis is needed: with a duplicated id the runner addresses position 1, but the operator
+process of that id takes the first position's range and does not own the key -/
+example :
+    ((srHandleDeploy ⟨[[1],[1]], 2⟩).bind (srRoute · [104,101,108,108,111])) = some [1] ∧
+    ((opHandleDeploy [1] ⟨[[1],[1]], [], 2⟩).map fun st => st.owns (st.dbKey [104,101,108,108,111] [] [])) = some false := by
+  decide
+
+/-- MurmurHash3 x86_32 reference vectors: a finite sample standing for "`Murmur.hash` is MurmurHash3-32" (there is no
+reference specification to prove against). Published vectors (smhasher verification inputs and the widely used
+test list for the x86_32 variant), the repository's own test values (`util/murmur/murmur_test.go`), each re-computed with
+an independent transcription of the public-domain reference (`harness/cmd/corr/c05_murmur_vectors.py`).
+Lengths 0-7, 13 (three blocks + tail), 43 (ten blocks + tail), 56 (fourteen blocks, no tail); seeds 0, 1, 1234,
+0x9747b28c, 0x5082edee, 0xffffffff. -/
 theorem murmur_vectors :
     (Murmur.hash [] 0).toNat = 0 ∧
     (Murmur.hash [] 1).toNat = 0x514e28b7 ∧
+    (Murmur.hash [] 0xffffffff).toNat = 0x81f16f39 ∧
     (Murmur.hash [104,101,108,108,111] 0).toNat = 0x248bfa47 ∧
     (Murmur.hash [0xff,0xff,0xff,0xff] 0).toNat = 0x76293b50 ∧
     (Murmur.hash [0x21,0x43,0x65,0x87] 0).toNat = 0xf55b516b ∧
+    (Murmur.hash [0x21,0x43,0x65,0x87] 0x5082edee).toNat = 0x2362f9de ∧
     (Murmur.hash [0x21,0x43,0x65] 0).toNat = 0x7e4a8634 ∧
     (Murmur.hash [0x21,0x43] 0).toNat = 0xa0f7b07a ∧
-    (Murmur.hash [0x21] 0).toNat = 0x72661cf4 := by decide
+    (Murmur.hash [0x21] 0).toNat = 0x72661cf4 ∧
+    (Murmur.hash [0,0,0,0] 0).toNat = 0x2362f9de ∧
+    (Murmur.hash [0,0,0] 0).toNat = 0x85f0b427 ∧
+    (Murmur.hash [0,0] 0).toNat = 0x30f4c306 ∧
+    (Murmur.hash [0] 0).toNat = 0x514e28b7 ∧
+    (Murmur.hash [97,97,97,97] 0x9747b28c).toNat = 0x5a97808a ∧
+    (Murmur.hash [97,98,99] 0).toNat = 0xb3dd93fa ∧
+    (Murmur.hash [116,101,115,116] 0).toNat = 0xba6bd213 ∧
+    (Murmur.hash [116,101,115,116] 0x9747b28c).toNat = 0x704b81dc ∧
+    (Murmur.hash [97,49] 0).toNat = 882153338 ∧
+    (Murmur.hash [49,50,51,52,53,54] 0).toNat = 3210799800 ∧
+    (Murmur.hash [97,98,99,100,101,102,103] 0).toNat = 2285673222 := by decide
+
+set_option maxRecDepth 20000 in
+/-- two and more full blocks, non-zero seeds ("Hello, world!", 13 bytes; the 43-byte pangram; the 56-byte SHA test string) -/
+theorem murmur_vectors_long :
+    (Murmur.hash [72,101,108,108,111,44,32,119,111,114,108,100,33] 1234).toNat = 0xfaf6cdb3 ∧
+    (Murmur.hash [72,101,108,108,111,44,32,119,111,114,108,100,33] 0x9747b28c).toNat = 0x24884cba ∧
+    (Murmur.hash [84,104,101,32,113,117,105,99,107,32,98,114,111,119,110,32,102,111,120,32,106,117,109,112,115,32,111,118,101,
+      114,32,116,104,101,32,108,97,122,121,32,100,111,103] 0).toNat = 0x2e4ff723 ∧
+    (Murmur.hash [84,104,101,32,113,117,105,99,107,32,98,114,111,119,110,32,102,111,120,32,106,117,109,112,115,32,111,118,101,
+      114,32,116,104,101,32,108,97,122,121,32,100,111,103] 0x9747b28c).toNat = 0x2fa826cd ∧
+    (Murmur.hash [97,98,99,100,98,99,100,101,99,100,101,102,100,101,102,103,101,102,103,104,102,103,104,105,103,104,105,106,
+      104,105,106,107,105,106,107,108,106,107,108,109,107,108,109,110,108,109,110,111,109,110,111,112,110,111,112,113] 0).toNat
+      = 0xee925b90 := by decide
 
 /-- non-vacuity: a concrete configuration where the operator count does not divide the group count -/
 example : ranges 7 3 = [⟨0,3⟩, ⟨3,5⟩, ⟨5,7⟩] ∧ lookupTable 7 3 = [0,0,0,1,1,2,2] := by decide
